@@ -99,6 +99,8 @@ pub struct Durable {
     pub valid: bool,
     pub sent_gen: BTreeMap<(u64, bool), u32>,
     pub ratchet_pos: BTreeMap<(usize, u64, bool), u32>,
+    /// proposals taken and then dropped with clear_proposal_cache before this write (their keys are spent on disk too)
+    pub cleared: BTreeSet<u64>,
 }
 
 /// write a member's group: with its tree, or (knob tree-oob) without it, the tree being kept by the application
@@ -2306,6 +2308,8 @@ impl World {
         match res {
             Ok(()) => {
                 let m = self.mem(p, g);
+                let cleared: BTreeSet<u64> = self.ext.cache_cleared.iter().filter(|(q, h, _)| *q == p && *h == g).map(|(_, _, id)| *id).collect();
+                let m = self.mem(p, g);
                 m.durable = Durable {
                     cached: m.cached.clone(),
                     pending: m.pending,
@@ -2313,6 +2317,7 @@ impl World {
                     valid: true,
                     sent_gen: m.sent_gen.clone(),
                     ratchet_pos: m.ratchet_pos.clone(),
+                    cleared,
                 };
                 m.unwritten_sends = 0;
                 m.unwritten_epochs.clear();
@@ -2443,6 +2448,10 @@ impl World {
                 m.sent_gen = m.durable.sent_gen.clone();
                 m.ret_pending.clear();
                 m.ratchet_pos = m.durable.ratchet_pos.clone();
+                // what was dropped with clear_proposal_cache after the last write is back as it was then
+                let cleared = m.durable.cleared.clone();
+                self.ext.cache_cleared.retain(|(q, h, _)| !(*q == p && *h == g));
+                self.ext.cache_cleared.extend(cleared.into_iter().map(|id| (p, g, id)));
                 self.stats.fault("P-RELOAD");
                 self.ev(format!("reload P{p} g{g} ok e{epoch}"));
                 // re-enqueue proposals of the current epoch that were lost with the crash
